@@ -90,7 +90,11 @@ Proof. intros []; reflexivity. Qed.
 
 Lemma ptext_step : forall s l, ptext (px (step s l)) = ptext (px s) ++ wdata l.
 Proof.
-  intros s l. destruct l; cbn [step wdata px]; rewrite ?app_nil_r.
+  intros s l. destruct l; cbn [step wdata px]; rewrite ?app_nil_r;
+    try (solve [repeat (match goal with
+    | |- context [if ?b then _ else _] => destruct b
+    | |- context [match ?x with _ => _ end] => destruct x
+    end); reflexivity]).
   - apply ptext_write.
   - apply ptext_flush.
   - apply ptext_close.
@@ -101,18 +105,6 @@ Proof.
     + destruct (Nat.eqb k (lid (en s)) && negb (lclosed (en s))); cbn [px];
         (eapply ptext_handover; [eassumption|apply after_batch_text]).
     + cbn [px]. eapply ptext_handover; [eassumption|apply after_batch_text].
-  - destruct (negb (app (en s)) && negb (running (en s))); reflexivity.
-  - destruct (app (en s) && running (en s)); reflexivity.
-  - destruct (app (en s) && negb (running (en s)) && fdone (ch s) (lastf (ch s))); reflexivity.
-  - destruct (negb (app (en s)) && negb (lclosed (en s))); reflexivity.
-  - destruct (lclosed (en s)); [reflexivity|]. destruct (loopq (en s)); [reflexivity|].
-    destruct (app (en s) && (running (en s) || negb (fdone (ch s) (lastf (ch s))))); [|reflexivity].
-    destruct (submit _ _ _ _). reflexivity.
-  - destruct (app (en s) && running (en s) && _); reflexivity.
-  - destruct (app (en s) && running (en s)); [|reflexivity]. destruct (submit _ _ _ _). reflexivity.
-  - destruct (active (ch s)); reflexivity.
-  - destruct (nth_error (waitq (ch s)) i); [|reflexivity].
-    destruct (fdone (ch s) (s_prev s0)); [|reflexivity]. destruct (start_sec _ _ _ _). reflexivity.
 Qed.
 
 Lemma stream_cons : forall l ls, stream (l :: ls) = wdata l ++ stream ls.
